@@ -36,6 +36,9 @@ VERIF = os.path.dirname(os.path.dirname(os.path.abspath(__file__)))
 DEFAULT_SEED = 20260921
 
 
+from .loop import SimStall
+
+
 class HarnessError(Exception):
     pass
 
@@ -87,6 +90,13 @@ def one_run(mod, scenario, seed=None, replay=None):
     t0 = time.perf_counter()
     try:
         res = mod.run(tape, scenario)
+    except SimStall as e:
+        # the run did not come to an end within its iteration budget and the check did
+        # not classify that itself: the code under test loops (bounded liveness)
+        res = {"violations": [{"rule": "did-not-finish", "params": {"uncaught": True},
+                               "detail": str(e)}],
+               "stats": {}, "digest": None, "sim_time": 0.0, "schedule": None,
+               "nontrivial": False}
     except Exception as e:       # a harness bug, never a verdict
         raise HarnessError(
             f"{mod.PROPERTY}/{scenario} seed={seed}: "
